@@ -360,6 +360,15 @@ func EncodedLen(codec string, payload []byte) int {
 
 // WaitUp waits until the server accepts connections.
 func (r *Rig) WaitUp() error {
+	if r.Net != nil {
+		for i := 0; i < 5000; i++ {
+			if r.Net.Listening(r.Addr) {
+				return nil
+			}
+			time.Sleep(time.Millisecond)
+		}
+		return errors.New("rig: server is not listening")
+	}
 	conn, err := r.Dial()
 	if err != nil {
 		return err
